@@ -394,6 +394,7 @@ func checkC13(c *Ctx) {
 
 	c.checkOperandNotComment("C13-OPCMT") // derives the operand readers; also yields C13-OPDEPTH
 	c.checkFlushStates()
+	c.checkTakeAfterLook()
 	// ---- C13-FLUSHTOP: terminating the lexer's pending atom "as a newline would" is right only where the
 	// available text may really be the whole text: at nesting depth 0. Inside an open bracket the rest of the
 	// atom may be in the next piece; flushing there cuts "(setq lst %al" + "pha beta)" into (quote al) pha.
